@@ -11,7 +11,8 @@ PID = "C14"
 RULE = ("rule-based state machine: a comparable key type (leaf or composite: pair/option/or/comb, incl. address, key_hash, "
         "key, bool, unit) and a universe of 3..8 keys near each other are drawn; rules = set UPDATE (add/remove), map "
         "UPDATE (insert/replace/remove), GET_AND_UPDATE, MEM, GET, SIZE, MAP (value transform), ITER (visit order), "
-        "literal construction (sorted / unsorted / duplicate), all executed as instructions on one live stack. Oracle: "
+        "literal construction (sorted / unsorted / duplicate), DUP that leaves the original below (it must never change while its "
+        "copy is updated), all executed as instructions on one live stack. Oracle: "
         "Python dict/set model + reference order; after every step the real collections are strictly increasing in the "
         "reference order and equal the model; observations agree; bad literals are rejected and leave the stack "
         "unchanged. Non-trivial history: >=3 updates including a removal and a re-insert on >=2 distinct keys. "
@@ -82,6 +83,7 @@ def make_machine(stats, depth):
             self._run(self.sstack, [{"prim": "EMPTY_SET", "args": [self.kt]}], "EMPTY_SET")
             self._run(self.mstack, [{"prim": "EMPTY_MAP", "args": [self.kt, self.vt]}], "EMPTY_MAP")
             self.mset, self.mmap = set(), {}
+            self.s_snaps, self.m_snaps = [], []
             self.updates, self.removed, self.reinserted, self.touched = 0, set(), False, set()
             self.ready = True
 
@@ -100,6 +102,18 @@ def make_machine(stats, depth):
                 raise Violation("%s failed: %r (key type %s, history %d steps)" % (what, err.args, _ts(self.kt), len(self.hist)),
                                 self._case(), "raise:" + what.split(" ")[0])
             return stk
+
+        def _hold(self, which):
+            if which == "set":
+                if len(self.s_snaps) >= 2:
+                    return
+                self._run(self.sstack, [{"prim": "DUP"}], "set DUP")
+                self.s_snaps.insert(0, set(self.mset))
+            else:
+                if len(self.m_snaps) >= 2:
+                    return
+                self._run(self.mstack, [{"prim": "DUP"}], "map DUP")
+                self.m_snaps.insert(0, dict(self.mmap))
 
         def _k(self, i):
             return interp.push(self.kt, rv.to_micheline(self.kt, self.keys[i]))
@@ -178,6 +192,13 @@ def make_machine(stats, depth):
             self._run(self.mstack, [{"prim": "MAP", "args": [[{"prim": "CDR"}] + body]}], "MAP")
             self.mmap = {k: fn(v) for k, v in self.mmap.items()}
 
+        @precondition(lambda self: self.ready and len(self.s_snaps) < 2)
+        @rule(which=st.sampled_from(["set", "map"]))
+        def hold_copy(self, which):
+            """DUP: the copy is worked on, the original stays below and must never change afterwards"""
+            self.hist.append({"op": "hold", "which": which})
+            self._hold(which)
+
         @precondition(lambda self: self.ready)
         @rule()
         def iterate(self):
@@ -226,7 +247,7 @@ def make_machine(stats, depth):
                     self.mmap = {i: val_of(self.vname, j) for j, i in enumerate(ids)}
             else:
                 self._run(stack, code, "%s %s-literal" % (mode, which), expect_fail=True)
-                if len(stack.items) != 1:
+                if len(stack.items) != 1 + len(self.s_snaps if which == "set" else self.m_snaps):
                     raise Violation("rejected literal left %d items on the stack" % len(stack.items), self._case(), "literal-stack")
 
         # -- invariant --
@@ -252,6 +273,17 @@ def make_machine(stats, depth):
                 raise Violation("set content %s differs from the model %s" % (sv, sorted(self.mset)), self._case(), "content:set")
             if m != [(self.keys[i], self.mmap[i]) for i in sorted(self.mmap)]:
                 raise Violation("map content %s differs from the model %s" % (mv, self.mmap), self._case(), "content:map")
+            # copies made earlier by DUP and left untouched since
+            for j, snap in enumerate(self.s_snaps):
+                _, hv = interp.read_item(self.sstack.items[1 + j])
+                if interp.parse_output(self.set_t, hv, "held set") != [self.keys[i] for i in sorted(snap)]:
+                    raise Violation("a set copied by DUP %d hold(s) ago changed although only its copy was updated: %s, it was %s" % (
+                        j + 1, hv, sorted(snap)), self._case(), "held-copy-changed:set")
+            for j, snap in enumerate(self.m_snaps):
+                _, hv = interp.read_item(self.mstack.items[1 + j])
+                if interp.parse_output(self.map_t, hv, "held map") != [(self.keys[i], snap[i]) for i in sorted(snap)]:
+                    raise Violation("a map copied by DUP %d hold(s) ago changed although only its copy was updated: %s" % (j + 1, hv),
+                                    self._case(), "held-copy-changed:map")
 
         def teardown(self):
             if self.ready and not stats.frozen:
@@ -285,6 +317,8 @@ def replay(case):
             _call(m, "iterate")
         elif op == "literal":
             _call(m, "literal", idx=step["keys"], mode=step["mode"], which=step["which"], pos=step["pos"])
+        elif op == "hold":
+            m._hold(step["which"])
         m.agrees()
 
 
@@ -320,6 +354,7 @@ def _replay_init(m, first):
     m._run(m.sstack, [{"prim": "EMPTY_SET", "args": [kt]}], "EMPTY_SET")
     m._run(m.mstack, [{"prim": "EMPTY_MAP", "args": [kt, m.vt]}], "EMPTY_MAP")
     m.mset, m.mmap = set(), {}
+    m.s_snaps, m.m_snaps = [], []
     m.updates, m.removed, m.reinserted, m.touched = 0, set(), False, set()
     m.ready = True
 
